@@ -215,33 +215,37 @@ theorem C14_stall_classification {s : St} (h : Reachable s) (t : Tid) (hc : inCa
       have := (hL.cond_iff t).2 e
       rw [hp] at this; cases this
 
-/-- **Bounded stall, release.**  A client blocked in `poll()` is enabled again as soon as a frame arrives, the
-stream ends, the connection is closed, or its deadline is reached; a client asleep on the condition as soon as it
-is notified or its deadline is reached. -/
-theorem stalled_waiter_released {s : St} (t : Tid) :
-    ((s.loc t).pc = .p0 → (s.chan ≠ [] ∨ s.eof = true ∨ s.closed = true ∨ expiredAt (s.loc t).dl s.now = true) →
-        enabled s t = true) ∧
-    ((s.loc t).pc = .zz → (t ∉ s.waiters ∨ expiredAt (s.loc t).wdl s.now = true) → enabled s t = true) := by
-  constructor
-  · intro hp hc
-    rcases hc with h | h | h | h
-    · exact p0_enabled hp (.inl h)
-    · exact p0_enabled hp (.inr (.inl h))
-    · exact p0_enabled hp (.inr (.inr h))
-    · by_cases hcl : s.closed = true
-      · exact p0_enabled hp (.inr (.inr hcl))
-      · cases hch : s.chan with
-        | cons f r => exact p0_enabled hp (.inl (by rw [hch]; simp))
-        | nil =>
-          by_cases he : s.eof = true
-          · exact p0_enabled hp (.inr (.inl he))
-          · simp [enabled, stepRun, hp, doP0, hcl, hch, he, h]
-  · intro hp hc
-    rcases hc with h | h
-    · simp [enabled, stepRun, hp, doZz, h]
-    · by_cases hw : t ∈ s.waiters
-      · simp [enabled, stepRun, hp, doZz, hw, h]
-      · simp [enabled, stepRun, hp, doZz, hw]
+/-- **Bounded stall.**  A stalled client is released by the next frame, the end of the stream, the closing of the
+connection, its deadline or a notify — in that state its next step is enabled (lemma `stalled_waiter_released`) —
+and, for a reachable state with its result ready, its uninterrupted continuation from the loop test is exactly three
+steps long: it leaves the loop, passes the final readiness test and returns the peer's answer to its own request;
+it does not enter `serve` again.  (Under interleaving the same three steps are taken one by one —
+`released_waiter_returns` — and the result stays published meanwhile, lemma `ready_stable`.) -/
+theorem C14_bounded_stall {s : St} (h : Reachable s) (t : Tid) (_hs : (s.loc t).hasSeq = true)
+    (hr : (s.cells (s.loc t).seq).ready = true) :
+    (blocked s t = true →
+      ((s.loc t).pc = .p0 → (s.chan ≠ [] ∨ s.eof = true ∨ s.closed = true ∨ expiredAt (s.loc t).dl s.now = true) →
+          enabled s t = true) ∧
+      ((s.loc t).pc = .zz → (t ∉ s.waiters ∨ expiredAt (s.loc t).wdl s.now = true) → enabled s t = true)) ∧
+    ((s.loc t).pc = .w0 → ∃ s' e v, run s [.run t, .run t, .run t] = some s' ∧ (s'.loc t).pc = .idle ∧
+        s.answer (s.loc t).seq = some (e, v) ∧ (s'.loc t).result = some (.value (some e) (some v))) := by
+  refine ⟨fun _ => stalled_waiter_released t, fun hp => ?_⟩
+  obtain ⟨_, e, v, he, hv, ha⟩ := publication h _ hr
+  have hp1 : ((doW0 s t (s.loc t)).loc t).pc = .w9 := by simp [doW0, hr]
+  have hq1 : ((doW0 s t (s.loc t)).loc t).seq = (s.loc t).seq := by simp [doW0]
+  have hc1 : (doW0 s t (s.loc t)).cells = s.cells := by simp [doW0]
+  have hr1 : ((doW0 s t (s.loc t)).cells ((doW0 s t (s.loc t)).loc t).seq).ready = true := by rw [hc1, hq1]; exact hr
+  have hr1' : ((doW0 s t (s.loc t)).cells (s.loc t).seq).ready = true := by rw [hc1]; exact hr
+  have hp2 : ((doW9 (doW0 s t (s.loc t)) t ((doW0 s t (s.loc t)).loc t)).loc t).pc = .w10 := by simp [doW9, hr1]
+  have hq2 : ((doW9 (doW0 s t (s.loc t)) t ((doW0 s t (s.loc t)).loc t)).loc t).seq = (s.loc t).seq := by
+    simp [doW9, hr1', hq1]
+  have hc2 : (doW9 (doW0 s t (s.loc t)) t ((doW0 s t (s.loc t)).loc t)).cells = s.cells := by
+    simp [doW9, hq1, hc1, hr]
+  refine ⟨doW10 (doW9 (doW0 s t (s.loc t)) t ((doW0 s t (s.loc t)).loc t)) t
+      ((doW9 (doW0 s t (s.loc t)) t ((doW0 s t (s.loc t)).loc t)).loc t), e, v, ?_, ?_, ha, ?_⟩
+  · simp [run, step, stepRun, hp, hp1, hp2]
+  · simp [doW10]
+  · simp [doW10, hc2, hq2, he, hv]
 
 /-- **Bounded stall, return.**  Once released, a client whose result is ready does not enter `serve` again: at the
 loop test it leaves the loop, passes the final readiness test, and returns the peer's answer to its own request;
@@ -260,13 +264,12 @@ theorem released_waiter_returns {s s' : St} (h : Reachable s) (t : Tid) (_hs : (
     obtain ⟨_, e, v, he, hv, ha⟩ := Rpyc.Props.C14.publication h _ hr
     exact ⟨by simp [doW10], e, v, ha, by simp [doW10, he, hv]⟩
 
-theorem published_stays_published {s s' : St} (a : Actor) (hs : step s a = some s') (q : Seq)
-    (hr : (s.cells q).ready = true) : (s'.cells q).ready = true :=
-  ready_stable a hs q hr
-
 /-- **Corollary: with no second serving thread the property holds.**  In every run in which only thread `t` (in any
 roles, one after the other: caller, polling thread, background thread) and the environment act, `t` is never
-blocked with its result ready: `C14_statement` restricted to single-threaded use of the connection. -/
+blocked with its result ready: `C14_statement` restricted to single-threaded use of the connection.  The hypothesis
+is about LOGICAL threads of the machine: it covers results that travel by value or as references to builtin classes.
+For a reference to a user-class instance the INSPECT round trip of `_unbox` is a second logical thread (run by the same
+OS thread), so that case is not covered by this corollary; the harness finds no stall there with a single OS thread. -/
 theorem C14_holds_without_second_thread (t : Tid) (as : List Actor) (s : St) (hall : ∀ a ∈ as, a.byOrEnv t)
     (hrun : run init as = some s) (hc : inCall s t = true) (hr : (s.cells (s.loc t).seq).ready = true) :
     blocked s t = false := by
@@ -275,29 +278,6 @@ theorem C14_holds_without_second_thread (t : Tid) (as : List Actor) (s : St) (ha
   have : u = t := hp _ _ hu
   subst this
   exact C14_partial_self hreach u hc hr hu
-
-set_option linter.unusedSimpArgs false in
-/-- **Dispatching a reply makes no request of its own (in the model).**  Between receiving a frame and publishing the result
-(`r0 … d5`: release, notify, `_dispatch`, `_seq_request_callback`, `AsyncResult.__call__`) a model thread sends
-nothing and takes no sequence number.  This is a fact about the MODEL's steps, true by construction.  Of the real
-code it holds for results that travel by value or are references to builtin classes (checked by trace acceptance,
-also with a DEBUG logger configured: a dispatcher that sends a request there — e.g. `repr()` of a proxy in a log
-line — is rejected, and the stall it causes carries the signature
-`C14:dispatcher-blocks-in-nested-request-before-publication`).  It does NOT hold for a reference to an instance of
-a user class: `_unbox` → `_netref_factory` makes a `sync_request(HANDLE_INSPECT)` on the dispatching thread,
-between the lock hand-off and the publication.  That nested call is represented as a fresh logical thread of the
-machine (the locks have no owner), so every theorem still applies to those runs; the stalls it widens are
-reproduced on the real code (witness `userclass-priority`) and fall under the first listed signature. -/
-theorem dispatcher_sends_no_request {s s' : St} (t : Tid)
-    (hp : (s.loc t).pc.holding = true ∨ (s.loc t).pc.completing = true) (hs : step s (.run t) = some s') :
-    s'.outstanding = s.outstanding ∧ s'.seqCounter = s.seqCounter ∧ s'.issued = s.issued := by
-  simp only [step, stepRun] at hs
-  generalize hpc : (s.loc t).pc = pc at hs hp
-  cases pc <;> simp [PC.holding, PC.completing] at hp <;>
-    simp only [doR0, doN0, doN1, doN2, doD0, doD1, doD2, doD3, doD4, doD5, Option.some.injEq] at hs <;>
-    (repeat' split at hs) <;>
-    (first | (subst hs; simp [setLoc, setCell, markDispatched])
-           | (cases hs; first | done | simp [setLoc, setCell, markDispatched]))
 
 /-- the three partial results together -/
 theorem C14_partial {s : St} (h : Reachable s) (t : Tid) (hc : inCall s t = true) :
